@@ -476,9 +476,13 @@ fn parse_atom_latin1(input: &[u8]) -> NomResult<'_, OwnedTerm> {
         return Err(nom::Err::Failure(NomError::new(input, ErrorKind::TooLarge)));
     }
     let (input, bytes) = take(len as usize)(input)?;
-    let name = str::from_utf8(bytes)
-        .map_err(|_| nom::Err::Failure(NomError::new(input, ErrorKind::Char)))?;
-    Ok((input, OwnedTerm::Atom(Atom::new(name))))
+    Ok((input, OwnedTerm::Atom(Atom::new(latin1_to_string(bytes)))))
+}
+
+// ATOM_EXT and SMALL_ATOM_EXT carry Latin-1: every byte is one code point, so bytes
+// >= 0x80 (which are not valid UTF-8 on their own) must be transcoded, not rejected.
+fn latin1_to_string(bytes: &[u8]) -> String {
+    bytes.iter().map(|&b| b as char).collect()
 }
 
 fn parse_atom_utf8(input: &[u8]) -> NomResult<'_, OwnedTerm> {
@@ -509,9 +513,7 @@ fn parse_small_atom_latin1(input: &[u8]) -> NomResult<'_, OwnedTerm> {
         return Err(nom::Err::Failure(NomError::new(input, ErrorKind::TooLarge)));
     }
     let (input, bytes) = take(len as usize)(input)?;
-    let name = str::from_utf8(bytes)
-        .map_err(|_| nom::Err::Failure(NomError::new(input, ErrorKind::Char)))?;
-    Ok((input, OwnedTerm::Atom(Atom::new(name))))
+    Ok((input, OwnedTerm::Atom(Atom::new(latin1_to_string(bytes)))))
 }
 
 fn parse_dist_header_with_cache<'a>(
@@ -944,9 +946,11 @@ fn parse_atom_latin1_borrowed(input: &[u8]) -> NomResult<'_, BorrowedTerm<'_>> {
         return Err(nom::Err::Failure(NomError::new(input, ErrorKind::TooLarge)));
     }
     let (input, bytes) = take(len as usize)(input)?;
-    let name = str::from_utf8(bytes)
-        .map_err(|_| nom::Err::Failure(NomError::new(input, ErrorKind::Char)))?;
-    Ok((input, BorrowedTerm::Atom(Cow::Borrowed(name))))
+    let name = match str::from_utf8(bytes) {
+        Ok(ascii) if bytes.is_ascii() => Cow::Borrowed(ascii),
+        _ => Cow::Owned(latin1_to_string(bytes)),
+    };
+    Ok((input, BorrowedTerm::Atom(name)))
 }
 
 fn parse_atom_utf8_borrowed(input: &[u8]) -> NomResult<'_, BorrowedTerm<'_>> {
